@@ -59,9 +59,10 @@ func init() {
 }
 
 type huff struct {
-	freq [rT + 1]int
-	prnt [rT + rNChar]int
-	son  [rT]int
+	freq     [rT + 1]int
+	prnt     [rT + rNChar]int
+	son      [rT]int
+	rebuilds int // number of reconst() calls (observability only)
 }
 
 func (h *huff) start() {
@@ -84,6 +85,7 @@ func (h *huff) start() {
 }
 
 func (h *huff) reconst() {
+	h.rebuilds++
 	j := 0
 	for i := 0; i < rT; i++ {
 		if h.son[i] >= rT {
@@ -189,10 +191,36 @@ func (b *bitIn) byte8() int {
 	return v
 }
 
+// Stats describes what a decode run exercised (filled by DecodeStats). It is evidence about the
+// workload, never part of a verdict.
+type Stats struct {
+	Literals int         // literal symbols decoded
+	Matches  int         // match symbols decoded
+	PosHi    [64]int     // matches per upper-6-bit position code
+	Len      [rF + 1]int // matches per match length (3..60)
+	Rebuilds int         // adaptive-tree rebuilds (root frequency reached 0x8000)
+	LastLen  int         // length of the last symbol decoded (1 for a literal)
+	// Undefined counts bytes that a match copied from a window position which neither the space
+	// pre-fill (positions 0..N-F-1) nor the decoded data has written yet (positions N-F..N-1 during
+	// the first F output bytes). LZHUF.C leaves that region uninitialised, so the format does not
+	// define what such a stream decodes to; this decoder yields zero bytes there.
+	Undefined int
+}
+
 // Decode decodes a raw LZHUF stream (4 byte LE size + data). It returns the
 // decoded bytes, the number of input bytes consumed, and an error when the
 // stream is not a complete, exact encoding.
 func Decode(in []byte) (out []byte, consumed int, err error) {
+	return decode(in, nil)
+}
+
+// DecodeStats is Decode plus a description of the symbols that were decoded.
+func DecodeStats(in []byte) (out []byte, consumed int, st Stats, err error) {
+	out, consumed, err = decode(in, &st)
+	return
+}
+
+func decode(in []byte, st *Stats) (out []byte, consumed int, err error) {
 	if len(in) < 4 {
 		return nil, 0, ErrTrunc
 	}
@@ -208,7 +236,12 @@ func Decode(in []byte) (out []byte, consumed int, err error) {
 	}
 	r := rN - rF
 	bi := &bitIn{b: in[4:]}
-	out = make([]byte, 0, minInt(int(size), 1<<20))
+	// never allocate by the declared size alone: the output is bounded by what the input bits can
+	// encode (one symbol of at most rF bytes per bit)
+	out = make([]byte, 0, minInt(int(size), 64<<10))
+	if st != nil {
+		defer func() { st.Rebuilds = h.rebuilds }()
+	}
 	for len(out) < int(size) {
 		c := h.son[rR]
 		for c < rT {
@@ -224,6 +257,10 @@ func Decode(in []byte) (out []byte, consumed int, err error) {
 			out = append(out, byte(c))
 			text[r] = byte(c)
 			r = (r + 1) & (rN - 1)
+			if st != nil {
+				st.Literals++
+				st.LastLen = 1
+			}
 			continue
 		}
 		i := bi.byte8()
@@ -237,11 +274,21 @@ func Decode(in []byte) (out []byte, consumed int, err error) {
 		pos := pc | (i & 0x3f)
 		src := (r - pos - 1) & (rN - 1)
 		l := c - 255 + rThresh
+		if st != nil {
+			st.Matches++
+			st.PosHi[pos>>6]++
+			st.Len[l]++
+			st.LastLen = l
+		}
 		if len(out)+l > int(size) {
 			return out, 4 + bi.pos, ErrOverrun
 		}
 		for k := 0; k < l; k++ {
-			ch := text[(src+k)&(rN-1)]
+			idx := (src + k) & (rN - 1)
+			if st != nil && idx >= rN-rF && len(out) <= idx-(rN-rF) {
+				st.Undefined++
+			}
+			ch := text[idx]
 			out = append(out, ch)
 			text[r] = ch
 			r = (r + 1) & (rN - 1)
@@ -478,6 +525,49 @@ func Encode(in []byte) []byte {
 		e.out.WriteByte(byte(e.putbuf >> 8))
 	}
 	return e.out.Bytes()
+}
+
+// Sym is one LZHUF symbol for EncodeSyms: a literal (Len == 0) or a match of Len bytes (3..60)
+// starting Pos+1 bytes behind the write position (Pos 0..2047).
+type Sym struct {
+	Lit byte
+	Len int
+	Pos int
+}
+
+// EncodeSyms writes a raw LZHUF stream (4 byte LE size + data) that carries exactly the given
+// symbols, with the given value in the size field. It produces streams that are valid for the
+// canonical decoder but that the canonical encoder would never choose (arbitrary match positions,
+// overlaps, references into the space pre-fill), and hostile ones (sizes that disagree).
+func EncodeSyms(size int32, syms []Sym) []byte {
+	e := &enc{}
+	var hdr [4]byte
+	binary.LittleEndian.PutUint32(hdr[:], uint32(size))
+	e.out.Write(hdr[:])
+	e.h.start()
+	for _, s := range syms {
+		if s.Len == 0 {
+			e.encodeChar(int(s.Lit))
+			continue
+		}
+		if s.Len <= rThresh || s.Len > rF || s.Pos < 0 || s.Pos >= rN {
+			panic("lzref: bad symbol")
+		}
+		e.encodeChar(255 - rThresh + s.Len)
+		e.encodePos(s.Pos)
+	}
+	if e.putlen != 0 {
+		e.out.WriteByte(byte(e.putbuf >> 8))
+	}
+	return e.out.Bytes()
+}
+
+// EncodeSymsB2 is EncodeSyms with the B2 checksum in front.
+func EncodeSymsB2(size int32, syms []Sym) []byte {
+	raw := EncodeSyms(size, syms)
+	out := make([]byte, 2, 2+len(raw))
+	binary.LittleEndian.PutUint16(out, CRC(raw))
+	return append(out, raw...)
 }
 
 // CRC-16/XMODEM, bitwise (poly 0x1021, init 0, no reflection)
